@@ -3,11 +3,11 @@ import stages, chancfg, vlib
 
 def run(ctx):
     ctx.rule = ("Chan.tla: every ending (Cancel/Error/Complete/ResumeResponder-from-Finalizing/FinishTransfer) with events arriving at every point of the asynchronous cleanup handler: "
-                "C09_ExactlyOnce/NeverWithout invariants and C09_Settles liveness; channel cells + histories on the real engine (C09.exactlyOnce/settles/neverWithout/unprotectPeer); manager cases: "
+                "C09_ExactlyOnce/NeverWithout invariants and C09_Settles liveness, environment unrestricted (EnvGuard = any: operations race with the handler); gated replay of ChanGate.tla schedules on the real engine (handler held before CleanupChannel / Unprotect / Trigger while operations are issued), judged by GateJudge and validated by ChanTrace; channel cells + histories on the real engine (C09.exactlyOnce/settles/neverWithout/unprotectPeer); manager cases: "
                 "Close/CloseWithError on every status x role with and without a failing cancel send (C09.close/closeWithError/exactlyOnce/settles); non-trivial = step that enters a cleanup status")
     ctx.assumptions += ["transport-level close in every request state is checked on the real adapter by gstx/TestClose (C16 harness)"]
     for role, ops in (("init", chancfg.INIT_LIFE), ("resp", chancfg.RESP_LIFE)):
-        res = stages.model_chan(ctx, chancfg.chan_cfg(init=("c1",) if role == "init" else (), ops=ops, max_ops=3 if ctx.quick() else 4, guard="quietEnding",
+        res = stages.model_chan(ctx, chancfg.chan_cfg(init=("c1",) if role == "init" else (), ops=ops, max_ops=3 if ctx.quick() else 4, guard="any",
                                                       invariants=["TypeOK", "C09_ExactlyOnce", "C09_NeverWithout"],
                                                       properties=[] if ctx.quick() else ["C09_Settles"]), "chan-c09-" + role)
         if res.violated:
@@ -15,6 +15,8 @@ def run(ctx):
         vlib.tlc_must_pass(res, "Chan C09")
         ctx.add_model(res)
     stages.chan_family(ctx, ["C09."], lambda s: any(e["call"] == "cleanup" for e in s["env"]))
+    # gated replay: ChanGate.tla schedules in which operations are issued WHILE the real cleanup handler is held at one of its three gates
+    stages.gated_family(ctx, ["C09."])
     stages.mgr_family(ctx, ["C09."], ["all"], lambda s: s["stim"]["kind"] in ("Close", "CloseErr") or any(t["call"] == "cleanup" for t in s["tr"]),
                       quick_n=3000, model=not ctx.quick(), sims=True, invariants=["M_C09_Close"], keep=lambda l: any(k in l for k in ('"kind":"Close"', '"kind":"CloseErr"', '"kind":"Cancel"')))
     # transport level: the REAL graphsync adapter's CloseChannel in every request state x gs.Cancel outcome, under virtual time
